@@ -219,11 +219,11 @@ func verifyRefSnapshot(c *Ctx) {
 
 func init() {
 	register("C10", "translation_validation", func(c *Ctx) {
-		c.Rule("differential check against the pinned reference implementation linked into the same binary: every configuration of the catalogue (every transform x every entropy codec x shapes x lengths; all ordered transform pairs; level presets and 8-stage chains; a block-size ladder 600 KB and 1.2 MB (100 KB..17 MB thorough) for every entropy codec and the size-sensitive transforms; framing: jobs, checksum widths, hints, header/headerless) is ENCODED BY THE REFERENCE writer; where the reference reader restores the input, the current reader (jobs 1 and 3) must return the same bytes and end status. Nothing is asserted about the current writer, so encoder-side repairs cannot alarm. Plus the archived corpus /verif/golden (42 streams, one per transform / entropy codec / checksum width / level) with SHA-256 of the originals. programs = reference-written streams compared; Non-trivial = non-empty input on which the reference round-trips")
+		c.Rule("differential check against the pinned reference implementation linked into the same binary: every configuration of the catalogue (every transform x every entropy codec x shapes x lengths; all ordered transform pairs; level presets and 8-stage chains; long blocks (256 KiB + 50 KB of longlit / mixed / allruns / rarerun data through every transform); a block-size ladder 600 KB and 1.2 MB (100 KB..17 MB thorough) for every entropy codec and the size-sensitive transforms; framing: jobs, checksum widths, hints, header/headerless) is ENCODED BY THE REFERENCE writer; where the reference reader restores the input, the current reader (jobs 1 and 3) must return the same bytes and end status. Nothing is asserted about the current writer, so encoder-side repairs cannot alarm. Plus the archived corpus /verif/golden (42 streams, one per transform / entropy codec / checksum width / level) with SHA-256 of the originals. programs = reference-written streams compared; Non-trivial = non-empty input on which the reference round-trips")
 		verifyRefSnapshot(c)
 		const B = 1024
 		famFmt.Each(c, 0, func(emit func(fmtCase)) {
-			shapesA := pick(c, []string{"text", "utf8-3", "dna", "elf", "wav16s", "runs", "sparse", "random", "lzbound", "rot256"}, shapeNames)
+			shapesA := pick(c, []string{"text", "utf8-3", "dna", "elf", "wav16s", "runs", "sparse", "random", "lzbound", "rot256", "allruns", "rarerun"}, shapeNames)
 			for _, t := range allTransforms {
 				for _, e := range allEntropies {
 					for _, sh := range shapesA {
@@ -245,6 +245,13 @@ func init() {
 					for _, sh := range pick(c, []string{"text", "lzbound"}, []string{"text", "dna", "runs", "lzbound", "elf"}) {
 						emit(fmtCase{P: Params{t1 + "+" + t2, "HUFFMAN", 4096, 2, 32, -1, false, false}, Shape: sh, Len: 9000, Jobs: 3})
 					}
+				}
+			}
+			// long blocks: the shapes x transforms of C01's 256 KiB sub-space and C13's long blocks (literal
+			// runs / match lengths / run lengths beyond the short encodings of each codec)
+			for _, t := range allTransforms {
+				for _, sh := range pick(c, []string{"longlit", "mixed", "allruns", "rarerun"}, []string{"longlit", "mixed", "runs", "allruns", "rarerun", "lzbound", "text"}) {
+					emit(fmtCase{P: Params{t, "NONE", 262144, 2, 32, -1, false, false}, Shape: sh, Len: 262144 + 50000, Jobs: 2})
 				}
 			}
 			// block-size ladder: codecs pick table sizes / model parameters from the block size
